@@ -296,8 +296,11 @@ def _comps_raw(x):
 
 def _describe(x, origin):
     country = getattr(x, "country_code", "") if not type(x) is str else ""
+    inner = type(x.bban).__name__ if isinstance(x, IBAN) and hasattr(x, "bban") else ""
+    inner_o = type(origin.bban).__name__ if isinstance(origin, IBAN) and hasattr(origin, "bban") else ""
     return {"cls": type(x).__name__, "compact": C(str(x)), "country": C(country),
-            "eq_origin": bool(x == origin) and bool(origin == x), "comps": _comps(x), "origin_comps": _comps(origin)}
+            "eq_origin": bool(x == origin) and bool(origin == x), "comps": _comps(x) + [C(inner)],
+            "origin_comps": _comps(origin) + [C(inner_o)]}
 
 
 def values_op(a):
@@ -316,6 +319,19 @@ def values_op(a):
         return {"sorted": [C(str(v)) for v in sorted([x, y, "ZZ"])]}
     if kind == "props":
         return {"a": _describe(x, xo), "b": _describe(y, yo)}
+    if kind == "container":
+        # copies of SEVERAL objects in one operation (list / tuple / dict): each copy must still be
+        # the value it was copied from
+        import copy as _copy
+        import pickle as _pickle
+        out = {}
+        for name, fn in (("list", lambda: _copy.deepcopy([x, y])), ("tuple", lambda: _copy.deepcopy((x, y))),
+                         ("dict", lambda: list(_copy.deepcopy({"p": x, "q": y}).values())),
+                         ("pickle", lambda: _pickle.loads(_pickle.dumps([x, y], 2))),
+                         ("shallow", lambda: _copy.copy([x, y]))):
+            cx, cy = fn()
+            out[name] = {"a": _describe(cx, xo), "b": _describe(cy, yo)}
+        return out
     raise ValueError(kind)
 
 
